@@ -573,3 +573,136 @@ def c08(tier, seed):
         fz = ["", "00" * 64, "ff" * 64, "%016x" % rng.randrange(1 << 64) * 20, "80" * 100, "7f" * 333]
         out.append(scenario("c08-fuzz-%d" % i, {"body": body}, {"steps": 5}, runs=[{"fuzz": fz}], entry="fuzz", tag={"entry": "fuzz"}))
     return out
+
+
+# ---------------------------------------------------------------------------
+# C06: persisted and replayed first
+
+NAMES = ["TestPlain", "Test/sub/case", "Test\\back\\slash", "Test:colon*star?q\"quote<lt>gt|pipe", "Test with spaces.and.dots",
+         "Тест_юникод_名前_テスト", "CON", "com1", "LPT9", "nul", "Test-" + "x" * 180, "Ünïcödé/ß/ǅ", "T", "Test\ttab\nnewline", "AUX.txt", "Test#hash%percent"]
+
+LOGS = {
+    "nothing": [],
+    "text": [op("log", text="hello world")],
+    "bytes": [op("lograw", text="00010d0a23207630ff fe80".replace(" ", "")), op("lograw", text="0a0a23230a")],
+    "hashline": [op("log", text="# v0.4.8#12345"), op("log", text="0xdeadbeef")],
+    "crlf": [op("log", text="line1\r\nline2\r"), op("log", text="\n#\n")],
+    "long64k": [op("loglong", n=65534)],
+    "long64k1": [op("loglong", n=65535)],
+    "long70k": [op("loglong", n=70000)],
+    "long1m": [op("loglong", n=1 << 20)],
+}
+
+
+def c06(tier, seed):
+    rng = random.Random(seed)
+    out = []
+    bodies = {
+        "threshold": lambda: t_threshold("Int64", 1000),
+        "empty_stream": lambda: [op("fatalf", site=1)],                     # fails without drawing: the minimized bitstream is empty
+        "distinct": t_distinct, "string": t_string, "nonfatal": t_nonfatal, "sm": t_sm, "panic": lambda: t_threshold("Uint16", 77, "panic"),
+    }
+    combos = []
+    for nm in NAMES:
+        combos.append((nm, rng.choice(sorted(LOGS)), rng.choice(sorted(bodies))))
+    for lg in sorted(LOGS):
+        for bd in sorted(bodies):
+            combos.append((rng.choice(NAMES[:6]), lg, bd))
+    if tier == "quick":
+        combos = combos[:len(NAMES)] + rng.sample(combos[len(NAMES):], 26)
+    else:
+        combos = combos * 12
+    for i, (nm, lg, bd) in enumerate(combos):
+        if tier == "quick" and lg == "long1m" and i % 2:
+            lg = "long70k"
+        body = LOGS[lg] + bodies[bd]()
+        fl = {"checks": 100, "seed": rng.randrange(1, 1 << 64), "shrinktime": rng.choice(["0s", "30s", "30s"])}
+        runs = [{}, {"expect": "replay_prev"}, {"cleanDir": True, "failfilePrev": True, "expect": "replay_prev", "expectRun": 1}]
+        out.append(scenario("c06-%d-%s-%s" % (i, lg, bd), {"body": body}, fl, runs=runs, name=nm, tag={"log": lg, "body": bd, "testname": nm}))
+    # an explicit -rapid.failfile is tried before the files found in the test's directory
+    for i in range(4 if tier == "quick" else 40):
+        body = t_threshold("Int64", 1000)
+        runs = [{"flags": {"seed": str(rng.randrange(1, 1 << 64)), "shrinktime": "0s"}},
+                {"stashPrev": True, "flags": {"seed": str(rng.randrange(1, 1 << 64))}},
+                {"failfileRun": 1, "expect": "replay_prev", "expectRun": 1}]
+        out.append(scenario("c06-explicit-%d" % i, {"body": body}, {"checks": 100}, runs=runs, name="TestExplicit", tag={"explicit": True}))
+    return out
+
+
+# ---------------------------------------------------------------------------
+# C17: unusable fail files are ignored and never change the verdict
+
+def unusable_files(rng, name, n, valid_text):
+    kinds = ["random", "trunc", "mutate", "huge", "negative", "nofield", "extrafield", "otherversion", "comments", "empty", "dir",
+             "longline", "passing", "invalid", "onechar", "prefixversion", "spaces", "nohex"]
+    ver = rapid_version()
+    files = []
+    for j in range(n):
+        k = rng.choice(kinds)
+        path = ff_path(name, "u%d%s" % (j, k))
+        f = {"path": path}
+        if k == "random":
+            f["hex"] = bytes(rng.randrange(256) for _ in range(rng.randrange(1, 200))).hex()
+        elif k == "trunc":
+            cut = rng.randrange(0, len(valid_text))
+            f["hex"] = valid_text[:cut].encode().hex()
+        elif k == "mutate":
+            b = bytearray(valid_text.encode())
+            pos = rng.randrange(len(b))
+            b[pos] = rng.randrange(256)
+            f["hex"] = bytes(b).hex()
+        elif k == "huge":
+            f["text"] = "# c\n%s#1\n0x1\n0x10000000000000000\n" % ver
+        elif k == "negative":
+            f["text"] = "%s#-5\n-0x3\n" % ver
+        elif k == "nofield":
+            f["text"] = "%s\n0x1\n" % ver
+        elif k == "extrafield":
+            f["text"] = "%s#1#2\n0x1\n" % ver
+        elif k == "otherversion":
+            f["text"] = failfile_text([5000, 5000, 5000, 5000, 5000, 5000], version=rng.choice(["v0.4.7", "v1.0.0", "v0.4.80", ver + "1", ver + ".1", "", "x"]))
+        elif k == "prefixversion":
+            f["text"] = failfile_text([0, (1 << 63), (1 << 63), 0, 0, 0], version=ver + rng.choice(["0", "1", "-dev", ".2"]))
+        elif k == "comments":
+            f["text"] = "# only\n# comments\n\n"
+        elif k == "empty":
+            f["text"] = ""
+        elif k == "dir":
+            f = {"path": path, "dir": True}
+        elif k == "longline":
+            f["text"] = "# " + "z" * rng.choice([65534, 65536, 200000]) + "\n" + failfile_text([0, 0, 0], comments=())
+        elif k == "passing":
+            f["text"] = failfile_text([0, 0, 0, 0, 0, 0, 0, 0])
+        elif k == "invalid":
+            f["text"] = failfile_text([])
+        elif k == "onechar":
+            f["text"] = "%s#12345\n0" % ver
+        elif k == "spaces":
+            f["text"] = "   \n\t%s#7  \n  0x0 \n0x0\n\n0x0\n" % ver
+        elif k == "nohex":
+            f["text"] = "%s#7\n12\n0b11\n0o7\n077\n" % ver
+        files.append(f)
+    return files
+
+
+def c17(tier, seed):
+    rng = random.Random(seed)
+    out = []
+    n = 45 if tier == "quick" else 1500
+    props = {
+        "passing": lambda: {"body": [draw(g("Int64"), "x", "x"), draw(g("SliceOf", elem=g("Byte")), "s")]},
+        "failing": lambda: {"body": t_threshold("Int64", 1000)},
+        "skipping": lambda: {"body": [draw(g("Uint8"), "x", "x"), iff("x", "mod2", 0, [op("skip")])]},
+        "nonfatal": lambda: {"body": t_nonfatal()},
+    }
+    valid = failfile_text([1, 40, 999999], seed=77, comments=("# [TestX] draw x: 999999", "#"))
+    for i in range(n):
+        pn = sorted(props)[i % len(props)]
+        name = rng.choice(["TestIgnore", "Test/Ignore sub"])
+        nfiles = rng.randrange(1, 6)
+        files = unusable_files(rng, name, nfiles, valid)
+        fl = {"checks": rng.choice([5, 30]), "seed": rng.randrange(1, 1 << 64), "nofailfile": "true", "shrinktime": "0s"}
+        runs = [{}, {"files": files, "expect": "same_as_clean"}]
+        out.append(scenario("c17-%d-%s-%d" % (i, pn, nfiles), props[pn](), fl, runs=runs, name=name,
+                            tag={"prop": pn, "kinds": [f["path"].split("-")[-1].replace(".fail", "") for f in files]}))
+    return out
